@@ -228,12 +228,28 @@ func H05_error() {
 }
 
 // H05_error_api: native-only twin of H05_error through the public API with a REAL transform (LZ), so that the
-// tasks' scratch buffers differ from the decoded data: 6 compressible blocks, checksum 32, reader jobs 2, one payload
-// byte of block 4 damaged (located by parsing the container). Every byte delivered by any Read call, before or after
-// the error, must equal the original byte at that position, and nothing from block 4 on may be delivered.
+// tasks' scratch buffers differ from the decoded data. Two scenarios: (a) the shape of the counterexample's case
+// (number of full blocks, optional 12-byte copy-mode block, damaged block, reader jobs), (b) a fixed one with the
+// damage in a later batch (6 blocks, block 4, reader jobs 2). A payload byte of the chosen block is damaged (located by
+// parsing the container). Every byte delivered by any Read call, before or after the error, must equal the original byte
+// at that position, nothing from the damaged block on may be delivered, and the damage must be reported.
 func H05_error_api() {
-	const nblocks = 6
-	data := make([]byte, nblocks*vhB)
+	JR := vhParam("jobsR", 2)
+	nb := vhCase("blocks", 1, 8)
+	tail := 12 * vhCase("tailBlock", 0, 1)
+	bad := vhCase("badBlock", 1, 9)
+	if nb >= 1 && bad >= 1 && bad <= nb+tail/12 {
+		vhErrorScenario(nb, tail, bad, JR)
+	}
+	vhErrorScenario(6, 0, 4, 2)
+}
+
+func vhErrorScenario(nb, tail, bad, jobs int) {
+	nblocks := nb
+	if tail > 0 {
+		nblocks++
+	}
+	data := make([]byte, nb*vhB+tail)
 	for i := range data {
 		data[i] = byte('a' + (i/7)%13 + (i/vhB)*3%5)
 	}
@@ -254,13 +270,14 @@ func H05_error_api() {
 		lw := uint(getBits(pos, 5)) + 3
 		ln := getBits(pos+5, lw)
 		pos += 5 + uint64(lw)
-		if b == 4 {
+		if b == bad {
+			// middle of the block record: inside the entropy-coded payload (mode, length and checksum come first)
 			target = pos + ln/2
 		}
 		pos += ln
 	}
 	comp[target>>3] ^= 0x10
-	r, err := NewReader(vhCloserReader{bytes.NewReader(comp)}, 2)
+	r, err := NewReader(vhCloserReader{bytes.NewReader(comp)}, uint(jobs))
 	vhAssert(err == nil, "api-reader")
 	out := make([]byte, 0, len(data))
 	buf := make([]byte, 700)
@@ -272,8 +289,8 @@ func H05_error_api() {
 			sawErr = true
 		}
 	}
-	vhAssert(sawErr, "api-damage-reported")
-	vhAssert(len(out) <= 3*vhB, "nothing-delivered-from-failed-block-or-beyond")
+	vhAssert(sawErr, "damaged-block-is-reported")
+	vhAssert(len(out) <= (bad-1)*vhB, "nothing-delivered-from-failed-block-or-beyond")
 	for i := range out {
 		vhAssert(out[i] == data[i], "nothing-delivered-from-failed-block-or-beyond")
 	}
